@@ -84,6 +84,7 @@ class Res(object):
         self.labels = []
         self.is_nontrivial = False
         self.excluded = []
+        self.subcount = 0
         self._tmp = None
 
     def fail(self, sig, detail=''):
@@ -93,6 +94,10 @@ class Res(object):
     def check(self, cond, sig, detail=''):
         if not cond: self.fail(sig, detail() if callable(detail) else detail)
         return cond
+
+    def count(self, n):
+        """this case evaluated n sub-cases (e.g. a prefix expanded with every last operation)"""
+        self.subcount += int(n)
 
     def label(self, *names):
         self.labels.extend(str(n) for n in names)
@@ -135,6 +140,8 @@ class Res(object):
                 self.fail('hang:%s' % stage, str(e))
                 raise Aborted()
             where = _in_repo_frame(sys.exc_info()[2])
+            if where is None:
+                raise HarnessError('harness exception inside R.lib(%r): %s\n%s' % (stage, e, traceback.format_exc()))
             self.fail('exc:%s:%s:%s' % (stage, type(e).__name__, where),
                       '%s: %s' % (type(e).__name__, str(e)[:500]))
             raise Aborted()
@@ -239,7 +246,7 @@ class Acc(object):
         self.refused = 0
 
     def add(self, search, seed, case, R, max_samples=4):
-        self.evaluations += 1
+        self.evaluations += max(1, R.subcount)
         if R.is_nontrivial:
             h = case_hash(case)
             if h not in self.nontrivial:
